@@ -253,6 +253,21 @@ pub fn sort_family(rng: &mut Rng) -> Result<Fam> {
     finish("sort", format!("rows {} keybits {} payload {}{:?}", rows, kb, st_name(pst), pshape), ctx, rng, vec!["Sort".into()], true)
 }
 
+/// more than 20 rows with few distinct keys and a payload that tells the rows apart: stability of the
+/// sort is visible (Rust's unstable sort is stable up to 20 elements)
+pub fn sort_wide_family(rng: &mut Rng) -> Result<Fam> {
+    let rows = 40 + rng.below(25);
+    let kb = 1 + rng.below(2);
+    let ctx = simple_context(|g| {
+        let k = g.input(array_type(vec![rows, kb], BIT))?;
+        let v = g.input(array_type(vec![rows], UINT32))?;
+        g.create_named_tuple(vec![("k".to_owned(), k), ("v".to_owned(), v)])?.sort("k".to_owned())
+    })?;
+    let mut fam = finish("sort", format!("rows {} keybits {} payload = row number", rows, kb), ctx, rng, vec!["Sort".into()], true)?;
+    fam.inputs[1] = Value::from_flattened_array(&(0..rows).collect::<Vec<u64>>(), UINT32)?;
+    Ok(fam)
+}
+
 /// tables with a null column, unique live keys
 pub fn join_family(rng: &mut Rng, types: &[JoinType]) -> Result<Fam> {
     let jt = *rng.pick(types);
